@@ -649,7 +649,7 @@ g_irepository_load_typelib (GIRepository *repository,
   const char *nsversion;
   gboolean allow_lazy = flags & G_IREPOSITORY_LOAD_FLAG_LAZY;
   gboolean is_lazy;
-  char *version_conflict;
+  char *version_conflict = NULL;
 
   repository = get_repository (repository);
 
@@ -659,16 +659,15 @@ g_irepository_load_typelib (GIRepository *repository,
 
   if (get_registered_status (repository, namespace, nsversion, allow_lazy,
 			     &is_lazy, &version_conflict))
+    return namespace;
+
+  if (version_conflict != NULL)
     {
-      if (version_conflict != NULL)
-	{
-	  g_set_error (error, G_IREPOSITORY_ERROR,
-		       G_IREPOSITORY_ERROR_NAMESPACE_VERSION_CONFLICT,
-		       "Attempting to load namespace '%s', version '%s', but '%s' is already loaded",
-		       namespace, nsversion, version_conflict);
-	  return NULL;
-	}
-      return namespace;
+      g_set_error (error, G_IREPOSITORY_ERROR,
+		   G_IREPOSITORY_ERROR_NAMESPACE_VERSION_CONFLICT,
+		   "Attempting to load namespace '%s', version '%s', but '%s' is already loaded",
+		   namespace, nsversion, version_conflict);
+      return NULL;
     }
   return register_internal (repository, "<builtin>",
 			    allow_lazy, typelib, error);
